@@ -83,6 +83,7 @@ class World(object):
         self.vsc = self.ns["vsc"]
         self.ns["_now"] = lambda: sum(len(i.trace) for i in M.MirrorBoolector.instances)
         self.W = types.SimpleNamespace()
+        self.sync_errors = []
         self.shadow = {"k": "o", "cls": None, "rand": False, "rand_mode": False, "fields": {}, "cmode": {}}
         for w in spec["world"]:
             self.new(w)
@@ -133,7 +134,11 @@ class World(object):
     def _sync(self, node, path):
         k = node["k"]
         if k in ("s", "e"):
-            node["val"] = self.read_leaf(path)
+            try:
+                node["val"] = self.read_leaf(path)
+            except Exception as e:
+                # the facade itself is inconsistent (e.g. len() exceeds the elements present): reported, not fatal
+                self.sync_errors.append("%s: reading raised %s: %s" % (R.vname(path), type(e).__name__, str(e)[:80]))
         elif k == "o":
             for n, ch in node["fields"].items():
                 if ch["k"] != "rl":
@@ -427,8 +432,16 @@ def phantom_groups(world, env):
         elif node["k"] == "l":
             if node.get("size_used"):
                 sz, _, _ = env.leaf_term(path + ("size",))
-                for i, ch in enumerate(node["elems"]):
-                    names = [R.vname(p) for p, n in P.walk_leaves(ch, path + (i,)) if R.vname(p) in env.vars]
+                pre = R.vname(path) + "/"
+                byidx = {}
+                for nm in list(env.vars):
+                    # every solver variable under an element of the list, including elements the library pre-allocated
+                    # beyond the reference's bound
+                    if nm.startswith(pre):
+                        head = nm[len(pre):].split("/")[0]
+                        if head.isdigit():
+                            byidx.setdefault(int(head), []).append(nm)
+                for i, names in sorted(byidx.items()):
                     out.append((sz, i, names))
             for i, ch in enumerate(node["elems"]):
                 walk(ch, path + (i,))
@@ -676,6 +689,9 @@ def decide_call(world, spec, oi, op, q, opts, SolveFailure):
     # the state the user sees right before the call
     with _quiet():
         world.sync_shadow_values()
+    for w_ in world.sync_errors:
+        findings.append({"kind": "list_facade", "what": "before op %d: %s" % (oi, w_), "op": oi, "call": op})
+    del world.sync_errors[:]
     before = world.snapshot()
     softs = []
     try:
